@@ -175,6 +175,12 @@ OBS = {"main": {"sources": MC + ["checks/obs.c"], "modes": ["c07", "c19"]}}
 PROTO = {"main": {"sources": MC + ["checks/proto.c"], "modes": ["c02", "c03", "c09"]}}
 
 PROPS = {
+    "C20": {
+        "custom": True, "engine": "matrix", "level": "other",
+        "technique": "complete enumeration of the build-configuration matrix (2 compilers x 3 optimisation levels x hosted/freestanding) with a symbol-table oracle (nm -u of the relocatably linked core), the repository's lint rule and an include audit",
+        "assumptions": ["subject is the program text, not its executions: claimed because the enumeration is complete and every other check's closed-world argument rests on it",
+                        "compiler runtime helpers (__stack_chk_fail, libgcc integer helpers, _GLOBAL_OFFSET_TABLE_) are tolerated"],
+    },
     "C17": {
         "engine": "E3+E6",
         "builds": {"plain": {"sources": MC + ["checks/c17.c"], "modes": ["seq"]},
@@ -327,5 +333,135 @@ LEVEL_TEXT = {}
 NOT_APPLICABLE = {}
 
 
+
+
+# ----------------------------------------------------------------------------- C20 (configuration matrix)
 def run_custom(pid, spec, tier, seed, replay):
-    raise SystemExit("no custom engine for " + pid)
+    import json
+    import re
+    import subprocess
+    import sys
+    import time
+    VERIF = os.path.dirname(os.path.dirname(os.path.abspath(__file__)))
+    core_dir = os.path.join(REPO, "lltdResponder")
+    tus = ["lltdBlock.c", "lltdAutomata.c", "lltdWire.c", "lltdTlvOps.c"]
+    t0 = time.time()
+    bdir = os.path.join(VERIF, "build", pid)
+    cexdir = os.path.join(VERIF, "build", "cex")
+    os.makedirs(bdir, exist_ok=True)
+    os.makedirs(cexdir, exist_ok=True)
+    for fn in os.listdir(cexdir):
+        if fn.startswith(pid + "-"):
+            os.unlink(os.path.join(cexdir, fn))
+    port_h = open(os.path.join(core_dir, "lltdPort.h")).read()
+    port_funcs = set(re.findall(r"\b(lltd_port_\w+)\s*\(", port_h))
+    allowed_mem = {"memcpy", "memset", "memmove", "memcmp"}
+    runtime_re = re.compile(r"^(__stack_chk_fail|__stack_chk_guard|_GLOBAL_OFFSET_TABLE_|__(u?div|u?mod|u?divmod|mul|ashl|ashr|lshr|cmp|ucmp|neg|ffs|clz|ctz|popcount|parity|bswap)[sdt]i[234]?|__udivmoddi4|__divmoddi4)$")
+    viols = {}
+    samples = []
+    configs = []
+    evals = 0
+    outcomes = set()
+
+    def viol(sig, detail, cfg):
+        if sig in viols:
+            viols[sig]["count"] += 1
+            return
+        path = os.path.join(cexdir, "%s-matrix-%d.json" % (pid, len(viols)))
+        json.dump({"property": pid, "sig": sig, "detail": detail, "config": cfg}, open(path, "w"))
+        viols[sig] = {"sig": sig, "count": 1, "detail": detail, "cex": path}
+
+    matrix = [(cc, opt, fs) for cc in ("gcc", "clang") for opt in ("-O0", "-O2", "-Os") for fs in (False, True)]
+    if replay:
+        cex = json.load(open(replay))
+        print("replaying configuration:", cex.get("config"))
+        c = cex.get("config") or {}
+        matrix = [m for m in matrix if not c.get("cc") or (m[0] == c["cc"] and m[1] == c["opt"] and m[2] == c["freestanding"])]
+    for cc, opt, fs in matrix:
+        cfg = {"cc": cc, "opt": opt, "freestanding": fs}
+        objs = []
+        ok = True
+        for tu in tus:
+            obj = os.path.join(bdir, "%s-%s-%s-%s.o" % (tu[:-2], cc, opt.strip("-"), "fs" if fs else "hosted"))
+            cmd = [cc, opt, "-w", "-fno-common", "-c", os.path.join(core_dir, tu), "-o", obj, "-I", core_dir] + (["-ffreestanding"] if fs else [])
+            r = subprocess.run(cmd, stdout=subprocess.PIPE, stderr=subprocess.PIPE, text=True)
+            evals += 1
+            if r.returncode != 0:
+                viol("core-does-not-compile:%s" % ("freestanding" if fs else "hosted"), "%s %s %s%s: %s" % (cc, opt, tu, " -ffreestanding" if fs else "", r.stderr.strip().splitlines()[-1] if r.stderr.strip() else "?"), dict(cfg, tu=tu))
+                ok = False
+                break
+            objs.append(obj)
+        if not ok:
+            continue
+        link = os.path.join(bdir, "core-%s-%s-%s.o" % (cc, opt.strip("-"), "fs" if fs else "hosted"))
+        r = subprocess.run(["ld", "-r", "-o", link] + objs, stdout=subprocess.PIPE, stderr=subprocess.PIPE, text=True)
+        evals += 1
+        if r.returncode != 0:
+            viol("core-does-not-link-relocatably", r.stderr.strip()[-300:], cfg)
+            continue
+        und = subprocess.run(["nm", "-u", link], stdout=subprocess.PIPE, text=True).stdout.split()
+        und = sorted(set(x for x in und if x not in ("U", "w")))
+        foreign = [s_ for s_ in und if s_ not in port_funcs and s_ not in allowed_mem and not runtime_re.match(s_)]
+        for s_ in foreign:
+            viol("undefined-symbol-outside-port-api:%s" % s_, "%s %s%s: the relocatably linked core references '%s', which is neither declared in lltdPort.h nor a memory primitive / compiler runtime symbol" % (cc, opt, " -ffreestanding" if fs else "", s_), dict(cfg, symbol=s_))
+        sizes = subprocess.run(["size", "-A", link], stdout=subprocess.PIPE, text=True).stdout
+        writable = {}
+        for line in sizes.splitlines():
+            parts = line.split()
+            if len(parts) >= 2 and parts[0] in (".data", ".bss") or (len(parts) >= 2 and (parts[0].startswith(".data.") or parts[0].startswith(".bss."))):
+                writable[parts[0]] = int(parts[1])
+        configs.append({"args": "%s %s %s" % (cc, opt, "freestanding" if fs else "hosted"), "undefined": und, "writable_bytes": writable})
+        outcomes.add((tuple(und), tuple(sorted(writable.items()))))
+        outcomes.add((cc, opt, fs))
+    # the repository's own lint rule
+    if not replay:
+        r = subprocess.run(["bash", os.path.join(REPO, "scripts", "lint_core_no_os_conditionals.sh")], cwd=REPO, stdout=subprocess.PIPE, stderr=subprocess.PIPE, text=True)
+        evals += 1
+        if r.returncode != 0:
+            viol("repo-lint-fails", (r.stderr.strip() or r.stdout.strip())[-400:], {"lint": True})
+        # every #include of the core resolves inside lltdResponder/ or is a freestanding header
+        freestanding = {"stdint.h", "stddef.h", "stdbool.h", "stdarg.h", "limits.h", "float.h", "iso646.h", "stdalign.h", "stdnoreturn.h"}
+        for fn in sorted(os.listdir(core_dir)):
+            if not fn.endswith((".c", ".h")):
+                continue
+            for ln, line in enumerate(open(os.path.join(core_dir, fn), errors="replace"), 1):
+                m = re.match(r'\s*#\s*include\s*([<"])([^>"]+)[>"]', line)
+                if not m:
+                    continue
+                evals += 1
+                hdr = m.group(2)
+                if m.group(1) == '"':
+                    if not os.path.exists(os.path.join(core_dir, hdr)):
+                        viol("include-outside-core:%s" % hdr, "%s:%d includes \"%s\", which is not a file of lltdResponder/" % (fn, ln, hdr), {"file": fn, "line": ln})
+                elif hdr not in freestanding:
+                    viol("hosted-header-in-core:%s" % hdr, "%s:%d includes <%s>, which is not a freestanding C header" % (fn, ln, hdr), {"file": fn, "line": ln})
+        samples.append("lint script scripts/lint_core_no_os_conditionals.sh: exit %d" % r.returncode)
+    samples += ["%s: undefined = %s; writable sections = %s" % (c["args"], " ".join(c["undefined"]), c["writable_bytes"]) for c in configs[:3]]
+    sys.path.insert(0, os.path.join(VERIF, "bin"))
+    known = {}
+    kf = os.path.join(VERIF, "KNOWN_FINDINGS.txt")
+    if os.path.exists(kf):
+        for line in open(kf):
+            if line.startswith("finding:") and ("property=%s " % pid) in line:
+                head, _, what = line[len("finding:"):].partition("::")
+                kv = dict(x.split("=", 1) for x in head.split() if "=" in x)
+                known[kv.get("sig")] = what.strip()
+    unlisted = [v for s_, v in viols.items() if s_ not in known]
+    for s_, v in viols.items():
+        if s_ in known:
+            print("KNOWN-FINDING: property=%s %s (%s)" % (pid, s_, known[s_]))
+    for v in unlisted:
+        print("VIOLATION property=%s replay=%s" % (pid, v["cex"]))
+        print("  signature: %s\n  diagnosis: %s" % (v["sig"], v["detail"]))
+    wall = time.time() - t0
+    if replay:
+        return 1 if unlisted else 0
+    ev = {"property_id": pid, "tier": tier, "seed": seed, "level": "other",
+          "coverage": {"explanation": "complete enumeration of the configuration matrix {gcc, clang} x {-O0, -O2, -Os} x {hosted, -ffreestanding}: the four core translation units are compiled from the working tree, linked relocatably, and the undefined symbols of every link are checked against the functions declared in lltdPort.h (parsed at check time) plus memcpy/memset/memmove/memcmp and compiler runtime helpers; plus the repository's own lint script and an include audit of lltdResponder/. This is exhaustive enumeration of a finite configuration space with a symbol-table oracle, not of executions.",
+                       "evaluations": evals, "distinct_nontrivial": len(outcomes), "rule": "one evaluation = one compilation, relocatable link, lint run or #include line; distinct = distinct (compiler, optimisation, mode) configurations and distinct undefined-symbol sets",
+                       "samples": samples or ["(none)"], "exhaustive": True, "configurations": configs, "port_functions_declared": sorted(port_funcs),
+                       "known_findings_matched": [s_ for s_ in viols if s_ in known], "violation_signatures": [v["sig"] for v in unlisted]},
+          "assumptions": spec.get("assumptions", []), "wall_s": round(wall, 3), "violations": len(unlisted), "technique": spec.get("technique", "")}
+    json.dump(ev, open(os.path.join(VERIF, "evidence", pid + ".json"), "w"), indent=1)
+    print("%s %s: %d compilations/links/lint checks over %d configurations, %d distinct outcomes, wall=%.1fs violations=%d known=%d" % (pid, tier, evals, len(configs), len(outcomes), wall, len(unlisted), len(viols) - len(unlisted)))
+    return 1 if unlisted else 0
